@@ -204,7 +204,10 @@ impl Cursor<'_> {
                             e,
                         ))
                     }
-                    _ => return Ok(self.ident()?),
+                    // Not a number: a label that happens to start with `x`. Everything up to
+                    // the next separator has been consumed already, and a keyword is never
+                    // spelled like this, so there is nothing left for `ident` to look at.
+                    _ => return Ok(TokenKind::Label),
                 },
             },
         };
